@@ -4,7 +4,7 @@
     see the known finding about composite exponents.) *)
 From Coq Require Import ZArith Znumtheory Zpow_facts Lia List Bool.
 Require Import C12.gen.Tables.
-From C12 Require Import PrimeB Model ProofsSweep ProofsPrimes16.
+From C12 Require Import PrimeB Model ProofsSweep ProofsPPTable.
 Import ListNotations.
 Local Open Scope Z_scope.
 
